@@ -66,8 +66,8 @@ Definition walls_step (b : bdoc) : bool :=
   let spaces := map bs_name (d_spaces b) in
   forallb (fun w => nmem (bw_space w) spaces && match bw_next w with Some n => nmem n spaces | None => true end) (d_walls b).
 
-(* a window whose wall is not a wall of the project: walls.iter().find(..).unwrap() *)
-Definition windows_panic (b : bdoc) : bool :=
+(* a window whose wall is not a wall of the project: walls.iter().find(..).ok_or_else(..)? *)
+Definition windows_wall_missing (b : bdoc) : bool :=
   negb (forallb (fun n => nmem (bn_wall n) (map bw_name (d_walls b))) (d_wins b)).
 
 (* schedules: every lookup of a weekly / daily schedule name returns an error when it fails *)
@@ -97,7 +97,7 @@ Definition convert (b : bdoc) : outcome :=
   if negb (parse_ok b) then CErr
   else if negb (cons_step b) then CErr
   else if negb (walls_step b) then CErr
-  else if windows_panic b then CPanic
+  else if windows_wall_missing b then CErr
   else match sched_step b with
        | SErr => CErr
        | SPanic => CPanic
